@@ -672,3 +672,77 @@ def classify_c04(line, case, msg):
         if loc == 'error': return None
         if (k in ids) != (k in got.get(loc, [])): return None
     return 'NotCompoundArg'
+
+# ------------------------------------------------------------------------------------------------
+# C05: expected handler-invocation sequence from the extracted Coq reference (spec/CssSem.v, scope_events)
+SCOPE = {}
+def c05_applicable(line):
+    d = kv(line)
+    if d.get('strict', '0') == '1' or 'fail' in d or 'mem' in d or 'nomodel' in d or not line.startswith('L2 '): return False
+    for t in line.split(' '):
+        if t.startswith('sel=') and not flatten_struct(t[4:].split('~')[1])[1]: return False
+    return True
+
+def prepare_c05(cases_path, runner, build):
+    import subprocess
+    lines = [l.rstrip('\n') for l in open(cases_path) if c05_applicable(l.rstrip('\n'))]
+    SCOPE.clear()
+    out = subprocess.run([runner, 'scope'], input='\n'.join(lines) + '\n', capture_output=True, text=True, timeout=3000).stdout
+    cur = None
+    for ln in out.splitlines():
+        if ln.startswith('C '): cur = []; SCOPE[ln[2:]] = cur
+        elif ln.startswith('X ') and cur is not None:
+            f = ln.split(' ')
+            cur.append((f[1], int(f[2]), int(f[3]), int(f[4])) if len(f) == 5 and f[2].isdigit() else ('error', 0, 0, 0))
+
+def c05_normalise(seq):
+    """seq of (kind, idx, a, b): text chunks of one node collapse to the node start; duplicates within a node dropped;
+    end-tag handlers of one end tag and the end handlers are compared as sorted groups"""
+    out, seen = [], set()
+    cur_start, cur_end, last = None, None, None
+    for kind, idx, a, b in seq:
+        if kind == 'tx':
+            if cur_end is not None and (a == cur_end or (a, b) == last): pass
+            else: cur_start = a
+            cur_end = b; last = (a, b)
+            key = ('tx', idx, cur_start)
+            if key in seen: continue
+            seen.add(key); out.append(key)
+        elif kind == 'end': out.append(('end', idx, 0))
+        else: out.append((kind, idx, a))
+    # sort maximal runs of et events at one location, and the trailing end events
+    res, i = [], 0
+    while i < len(out):
+        k = out[i][0]
+        if k in ('et', 'end'):
+            j = i
+            while j < len(out) and out[j][0] == k and out[j][2] == out[i][2]: j += 1
+            res += sorted(out[i:j]); i = j
+        else:
+            res.append(out[i]); i += 1
+    return res
+
+def oracle_c05(line, case, stats, allc=None, lines=None):
+    cid = case['id']
+    if cid not in SCOPE or any(e[0] == 'error' for e in SCOPE[cid]): return []
+    obs = []
+    for c in case['calls']:
+        for head, tok in zip(c.get('handlers', []), c['events']):
+            f = head.split(' ')
+            if f[0] == 'bail': continue
+            if tok == 'X' or tok == '-': a = b = 0
+            else: a, b = [int(x) for x in tok.split(' ')[1].split('..')]
+            obs.append((f[0], int(f[1]), a, b))
+        if obslog.norm_res(c['res']) != 'ok': return []
+    if any(x.startswith('X ') for x in case.get('extra', [])): return []
+    exp2 = c05_normalise(SCOPE[cid])
+    got = c05_normalise(obs)
+    stats['cases'] = stats.get('cases', 0) + 1
+    stats['events'] = stats.get('events', 0) + len(got)
+    for k in ('el', 'et', 'cm', 'tx', 'dt', 'end'):
+        stats['ev_' + k] = stats.get('ev_' + k, 0) + sum(1 for e in got if e[0] == k)
+    if got != exp2:
+        n = next((i for i, (x, y) in enumerate(zip(got, exp2)) if x != y), min(len(got), len(exp2)))
+        return ['handler invocation sequence differs from the reference scope model at position %d: observed %s, expected %s (observed %d events, expected %d)'
+                % (n, got[n:n+3], exp2[n:n+3], len(got), len(exp2))]
+    return []
